@@ -33,6 +33,8 @@ type c09Live struct {
 	calls int
 	gate  chan struct{} // if non-nil every probe blocks until it is closed
 	in    int           // probes currently blocked
+	// if non-nil: how long the probe of this phantom takes (real probes take up to seconds); set before the pipeline starts
+	delayFor func(addr string, port uint16) time.Duration
 }
 
 func (l *c09Live) PhantomIsLive(addr string, port uint16) (bool, error) {
@@ -43,6 +45,11 @@ func (l *c09Live) PhantomIsLive(addr string, port uint16) (bool, error) {
 		l.in++
 	}
 	l.mu.Unlock()
+	if l.delayFor != nil {
+		if d := l.delayFor(addr, port); d > 0 {
+			time.Sleep(d)
+		}
+	}
 	if g != nil {
 		<-g
 		l.mu.Lock()
